@@ -337,10 +337,14 @@ def historyJ : List Obj → List Cmd → Except String (List Json)
     | .error e => .error e
     | .ok rest => .ok (out :: rest)
 
+/-- an array as a Curve sees it: `len` elements in the outer container, each a number (`w` null) or a
+tuple / row of `w` numbers -/
 def parseRef (j : Json) : Except String ArrRef := do
   let id ← getInt j "id"
   let len ← getInt j "len"
-  pure ⟨id.toNat, len.toNat⟩
+  match ← optInt j "w" with
+  | none => pure ⟨id.toNat, .flat len.toNat⟩
+  | some w => pure ⟨id.toNat, .points len.toNat w.toNat⟩
 
 def parseSetter (j : Json) : Except String Setter := do
   let a ← parseRef (← j.getObjVal? "a")
